@@ -426,7 +426,7 @@ class SamplingMethod(DirectMethod):
         # Size of integrator interval
         X0 = MX.sym("x", stage.nx)            # Initial state
         U = MX.sym("u", stage.nu)             # Control
-        P = MX.sym("p", stage.np+stage.v.shape[0])
+        P = MX.sym("p", stage._pv.shape[0])
         Z = MX.sym("z", stage.nz)
 
         Z0 = MX.sym("Z0", stage.nz)
